@@ -245,14 +245,14 @@ def replay_state(rep, s, cls):
 
 def part_model(rep, thorough, rng):
     if thorough:
-        runs = [("c13_nk1", dict(NK=1, NBS="{1, 2, 3, 4}", EMAX=4, THS="{0, 2}", QS="{2, 4}", AS1=tlaset([0, 7, 16]), ASHIFT=5,
+        runs = [("c13_nk1", dict(NK=1, NBS="{1, 2, 3, 4}", EMAX=4, THS="{0, 2}", QS="{2, 4}", AS1=tlaset([0, 11]), ASHIFT=5,
                                  DS="{1, 3}", NS="{3, 6}", SELS="{{}, {0}, {1, 2}, {0, 3}}", WrongBinning="FALSE"), 5000),
                 ("c13_nk1b", dict(NK=1, NBS="{1, 2, 3, 4}", EMAX=3, THS="{1}", QS="{2}", AS1=tlaset([0, 5, 11]), ASHIFT=4,
                                   DS="{2}", NS="{4, 5}", SELS="{{}, {1}, {2, 3}}", WrongBinning="FALSE"), 2000),
                 ("c13_nk2", dict(NK=2, NBS="{1, 2, 3}", EMAX=2, THS="{0, 1}", QS="{2}", AS1=tlaset([0, 7]), ASHIFT=4,
                                  DS="{1, 3}", NS="{4}", SELS="{{}, {1}, {0, 2}}", WrongBinning="FALSE"), 4000)]
     else:
-        runs = [("c13_nk1", dict(NK=1, NBS="{1, 2, 3, 4}", EMAX=3, THS="{0, 1}", QS="{2}", AS1=tlaset([0, 4, 9]), ASHIFT=3,
+        runs = [("c13_nk1", dict(NK=1, NBS="{1, 2, 3, 4}", EMAX=3, THS="{0, 1}", QS="{2}", AS1=tlaset([0, 9]), ASHIFT=3,
                                  DS="{1, 3}", NS="{3, 6}", SELS="{{}, {0}, {1, 2}}", WrongBinning="FALSE"), 700),
                 ("c13_nk2", dict(NK=2, NBS="{2}", EMAX=2, THS="{0, 1}", QS="{4}", AS1=tlaset([0, 5, 9]), ASHIFT=3,
                                  DS="{2}", NS="{4}", SELS="{{}, {1}}", WrongBinning="FALSE"), 500)]
@@ -307,7 +307,7 @@ def integral(x, what):
 
 def part_records(rep, thorough, rng):
     recs = []
-    nrec = 1500 if thorough else 300
+    nrec = 1500 if thorough else 240
     stats = dict(kramers=0, select=0, fder0=0, fder3=0, nonadditive=0)
     tries = 0
     while len(recs) < nrec:
